@@ -117,12 +117,17 @@ func (rt *runtime) cmplEvaluateNodeArrayLiteral(node *nodeArrayLiteral) Value {
 
 func (rt *runtime) cmplEvaluateNodeAssignExpression(node *nodeAssignExpression) Value {
 	left := rt.cmplEvaluateNodeExpression(node.left)
+	var leftValue Value
+	if node.operator != token.ASSIGN {
+		// 11.13.2: the old value is read before the right-hand side is evaluated.
+		leftValue = left.resolve()
+	}
 	right := rt.cmplEvaluateNodeExpression(node.right)
 	rightValue := right.resolve()
 
 	result := rightValue
 	if node.operator != token.ASSIGN {
-		result = rt.calculateBinaryExpression(node.operator, left, rightValue)
+		result = rt.calculateBinaryExpression(node.operator, leftValue, rightValue)
 	}
 
 	rt.putValue(left.reference(), result)
